@@ -1,5 +1,8 @@
 (* C08, fatal half, on the stream model.  [scrub k] replaces, in every script, the first fatal
-   error and everything behind it by the continuation k, and makes every callback infallible.
+   error and everything behind it by the continuation k, and makes every callback that returns
+   an error infallible (panics - of callbacks and of sources - are no faults in this sense and
+   stay as they are: the simulation theorem holds for every state, panicking ones included; the
+   run-level theorems are stated for pipelines without panics).
    Every call either behaves exactly as on the scrubbed state - for every k, so it cannot depend
    on what the failed source would have delivered, and in particular cannot report the end
    unless the end is due whatever follows - or it reports one of the fault codes itself. *)
@@ -21,12 +24,12 @@ Fixpoint scrub (k : list sevent) (s : sst) : sst :=
   | TSrc id src => TSrc id (ssrc_scrub k src)
   | TPeek p => TPeek (pkscrub (scrub k) p)
   | TCompact r first prev p => TCompact r first prev (scrub k p)
-  | TFilter keep _ calls p => TFilter keep never_fails calls (scrub k p)
+  | TFilter keep fl calls p => TFilter keep (scrub_fl fl) calls (scrub k p)
   | TFirst x p => TFirst x (scrub k p)
   | TFlatten rest curr => TFlatten (map (scrub k) rest) (option_map (scrub k) curr)
   | TJoin rem => TJoin (map (scrub k) rem)
-  | TMap f _ calls p => TMap f never_fails calls (scrub k p)
-  | TWhile f _ calls item has done p => TWhile f never_fails calls item has done (scrub k p)
+  | TMap f fl calls p => TMap f (scrub_fl fl) calls (scrub k p)
+  | TWhile f fl calls item has done p => TWhile f (scrub_fl fl) calls item has done (scrub k p)
   | TFlattenSlices b q => TFlattenSlices b (slscrub k q)
   end
 with slscrub (k : list sevent) (q : slst) : slst :=
@@ -76,11 +79,12 @@ Lemma script_next_sim k evs o evs' :
   (script_next (cut_with k evs) = (o, cut_with k evs') \/
    exists e, o = Err e /\ In e (fatal_codes evs)).
 Proof.
-  destruct evs as [|[x|e|e] t]; intros Hc; simpl in Hc; injection Hc as ? ?; subst; simpl.
+  destruct evs as [|[x|e|e|] t]; intros Hc; simpl in Hc; injection Hc as ? ?; subst; simpl.
   - split; [apply incl_refl|left; reflexivity].
   - split; [apply incl_refl|left; reflexivity].
   - split; [apply incl_refl|left; reflexivity].
   - split; [apply incl_refl|right]. exists e. simpl. auto.
+  - split; [apply incl_refl|left; reflexivity].
 Qed.
 
 Lemma ssrc_next_sim k live :
@@ -212,16 +216,34 @@ Proof.
 Qed.
 
 Lemma no_fatal_cut k evs : no_fatal k -> no_fatal (cut_with k evs).
-Proof. intros Hk. induction evs as [|[x|e|e] t IH]; simpl; auto. Qed.
+Proof. intros Hk. induction evs as [|[x|e|e|] t IH]; simpl; auto. Qed.
 
-Lemma scrub_ok k : no_fatal k ->
-  (forall p, dom_z p -> okz true (pz_scrub k p)) /\
-  (forall q, dom_l q -> okl true (pl_scrub k q)).
+Lemma script_ok_cut k evs :
+  script_ok k -> script_nopanic evs = true -> script_ok (cut_with k evs).
+Proof.
+  unfold script_ok, script_nopanic. intros [Hk1 Hk2]. split; [apply no_fatal_cut; exact Hk1|].
+  induction evs as [|[x|e|e|] t IH]; simpl in *; auto.
+Qed.
+
+Lemma scrub_fl_ok fl : cb_panics fl = false -> fail_at (scrub_fl fl) = None.
+Proof.
+  unfold cb_panics, scrub_fl. destruct (fail_panic fl); [|reflexivity].
+  destruct (fail_at fl); simpl; [discriminate|reflexivity].
+Qed.
+
+Lemma scrub_ok k : script_ok k ->
+  (forall p, dom_z p -> no_panics_z p = true -> okz true (pz_scrub k p)) /\
+  (forall q, dom_l q -> no_panics_l q = true -> okl true (pl_scrub k q)).
 Proof.
   intros Hk. apply pipe_ind; simpl; intros; auto.
-  - destruct s; simpl; auto; (split; [apply no_fatal_cut; exact Hk|discriminate]).
-  - induction H as [|x t Hx Ht IH]; simpl in *; [exact I|]. destruct H0. split; auto.
-  - induction H as [|x t Hx Ht IH]; simpl in *; [exact I|]. destruct H0. split; auto.
+  - destruct s; simpl in *; auto; (split; [apply script_ok_cut; assumption|discriminate]).
+  - destruct (cb_ok_split _ _ H1). split; [apply scrub_fl_ok; assumption|auto].
+  - induction H as [|x t Hx Ht IH]; simpl in *; [exact I|]. destruct H0.
+    apply andb_true_iff in H1. destruct H1. split; auto.
+  - induction H as [|x t Hx Ht IH]; simpl in *; [exact I|]. destruct H0.
+    apply andb_true_iff in H1. destruct H1. split; auto.
+  - destruct (cb_ok_split _ _ H1). split; [apply scrub_fl_ok; assumption|auto].
+  - destruct (cb_ok_split _ _ H1). split; [apply scrub_fl_ok; assumption|auto].
   - destruct H0. split; auto.
 Qed.
 
@@ -302,21 +324,22 @@ Lemma rcodes_init p : rcodes (srun_init p) = pipe_codes p.
 Proof. destruct p as [p|q]; simpl; [apply (proj1 sinit_codes)|apply (proj2 sinit_codes)]. Qed.
 
 (* C08, fatal half, for any number of Next calls with any contexts on ANY pipeline in the
-   documented domain (fatal and transient source errors, failing callbacks): until the first
+   documented domain in which nothing panics (fatal and transient source errors, callbacks that
+   return errors; the continuation k has no fatal error and no panic): until the first
    error whose code is one of the pipeline's fault codes, the results are a legal trace of the
    denotation of the pipeline in which every failing source continues with k - for every k. *)
 Theorem stream_steps_fatal cfg p lives k :
-  dom p -> no_fatal k ->
+  dom p -> no_panics p = true -> script_ok k ->
   legal_until (pipe_codes p) (den (pipe_scrub k p))
               (results (run_stream_cfg cfg p (Steps (map CNext lives)))).
 Proof.
-  intros Hd Hk. unfold results, run_stream_cfg.
+  intros Hd Hnp Hk. unfold results, run_stream_cfg.
   destruct (srun_steps (sort_ids (pipe_ids p)) (srun_init p) [] (map CNext lives))
     as [steps log] eqn:E. simpl.
   assert (Hok : sstate_ok true (rscrub k (srun_init p))).
   { rewrite rscrub_init. apply srun_init_ok.
     destruct p as [p|q]; simpl in *;
-      [apply (proj1 (scrub_ok k Hk))|apply (proj2 (scrub_ok k Hk))]; exact Hd. }
+      [apply (proj1 (scrub_ok k Hk))|apply (proj2 (scrub_ok k Hk))]; assumption. }
   pose proof (srun_steps_until (sort_ids (pipe_ids p)) k (pipe_codes p) lives (srun_init p) []
                 Hok ltac:(rewrite rcodes_init; apply incl_refl)) as H.
   rewrite E in H. simpl in H. rewrite rscrub_init, srun_init_den in H. exact H.
